@@ -3819,6 +3819,7 @@ def _check_dependents_are_predicates(
     stack = parent.dependencies()
     seen = set()
     all_dependents = set()
+    reaches_expr = {}
 
     while stack:
         e = stack.pop()
@@ -3831,6 +3832,15 @@ def _check_dependents_are_predicates(
 
         if isinstance(e, _DelayedExpr):
             continue
+
+        if not isinstance(
+            e, (Elemwise, ApplyConcatApply, TreeReduce, ShuffleReduce)
+        ) and _depends_on(e, expr._name, reaches_expr):
+            # The predicate is re-evaluated on other rows (or in another row
+            # order) once the filter moves; that is only the same thing for
+            # row-wise operations (and reductions to a scalar), not for e.g.
+            # cumulative or shifted values of expr
+            return False
 
         all_dependents.update(
             {x()._name for x in dependents[e._name] if x() is not None}
@@ -3846,6 +3856,17 @@ def _check_dependents_are_predicates(
     return all_dependents.issubset(allowed_expressions) and other_names.issubset(
         allowed_expressions
     )
+
+
+def _depends_on(e, name, cache):
+    # Whether the expression with the given name is among the (transitive)
+    # dependencies of e
+    if e._name not in cache:
+        cache[e._name] = any(
+            dep._name == name or _depends_on(dep, name, cache)
+            for dep in e.dependencies()
+        )
+    return cache[e._name]
 
 
 def calc_divisions_for_align(*exprs, allow_shuffle=True):
